@@ -72,6 +72,11 @@ class BareMove:
 
     __hash__ = object.__hash__
 
+    # a user class may be a container (e.g. of logged results): objects with an even payload are empty, hence falsy;
+    # the driver must tell "no move given" from a move by identity with None, not by truthiness
+    def __len__(self):
+        return STATE[id(self)]["payload"] % 2
+
     def __call__(self, context):
         s = STATE[id(self)]
         s["calls"] += 1
@@ -104,6 +109,9 @@ class BareCriteria:
     def __setattr__(self, name, value):
         STATE[id(self)]["writes"].append(name)
         object.__setattr__(self, name, value)
+
+    def __len__(self):  # see BareMove.__len__: an explicit criteria stays explicit when it is an empty container
+        return STATE[id(self)]["payload"] % 2
 
     def evaluate(self, context):
         s = STATE[id(self)]
